@@ -762,7 +762,7 @@ func init() {
 	vc.Register(&vc.Check{
 		ID: "C19", Title: "No input can crash the node or halt block processing; failures change nothing", Level: "exploration",
 		Rule: "one case = one history (22/70 blocks; fewer on sanitizer builds) in which every block carries up to 11 mutants of well-formed messages of every relayer/bridge type (corpus regenerated for the current state: all five voted kinds with valid quorums, deposits with a genuine SPV proof, finalisation, cancellation approval, acceptance, voter registration), mutated at protobuf level (bit flips, truncation, duplicated/deleted/emptied fields i.e. nil sub-messages, nested mutation, length prefix +-1, 32 KiB fields, odd-length byte fields such as bitmaps and keys, non-canonical varints, inserted bytes), decoded back and re-signed so that they reach the handlers; 3 byte-level mutants of whole transactions; a hostile execution-layer request list (random decodable requests with amounts up to 2^256-1, unknown validators/tokens, 255 typed requests, unknown type bytes, byte-mutated encodings); every fourth block a protobuf-mutated block message and, whenever hand-overs are due, eight structure-level variants of the payload's system transactions (locking or bridge hand-overs withheld, list shorter or longer than the declared count, everything withheld) through ProcessProposal, whose checks run in goroutines no recover() protects; " +
-			"all delivered through CheckTx, PrepareProposal, ProcessProposal and FinalizeBlock; plus 12/120 request histories (70/160 blocks, plain build) of structured request lists - real validators and tokens, partial unlocks to just below a threshold, dust, weights to zero and back, threshold changes, mixed with unknown validators/tokens - under absences and evidence, and 8/60 histories with the combined traffic of all modules (bridge workload with every perturbation, relayer membership with registrations of fresh and of already funded addresses, elections), where FinalizeBlock must never fail. Oracles: the worker process survives (exit status, no panic/fatal/sanitizer report; last input logged before delivery), FinalizeBlock never errors, and after every block all store hashes equal a twin that executed only what succeeded (failed transactions replaced by sequence-neutral fillers). Runs on the plain, -race (checkptr) and -asan builds. Non-trivial = a mutant that still decodes as a message and reaches FinalizeBlock; distinct = (message type, operator, verdict).",
+			"all delivered through CheckTx, PrepareProposal, ProcessProposal and FinalizeBlock; plus 12/120 request histories (70/160 blocks, plain build) of structured request lists - real validators and tokens, partial unlocks to just below a threshold, dust, weights to zero and back, threshold changes, mixed with unknown validators/tokens - under absences and evidence, and 8/60 histories with the combined traffic of all modules (bridge workload with every perturbation, relayer membership with registrations of fresh and of already funded addresses, elections, a directed burst of 9..12 withdrawals paid at once together with refunds), where FinalizeBlock must never fail. Oracles: the worker process survives (exit status, no panic/fatal/sanitizer report; last input logged before delivery), FinalizeBlock never errors, and after every block all store hashes equal a twin that executed only what succeeded (failed transactions replaced by sequence-neutral fillers). Runs on the plain, -race (checkptr) and -asan builds. Non-trivial = a mutant that still decodes as a message and reaches FinalizeBlock; distinct = (message type, operator, verdict).",
 		Assume: []string{"block-level failures of the block message caused by hostile request lists are allowed (the message fails, the block is processed)", "mutants are reached only as far as they still decode"},
 		Cases:  func(tier string) int { return map[string]int{"quick": 8 + 12 + 8, "thorough": 64 + 120 + 60}[tier] },
 		Run: func(c *vc.Ctx, i int) {
